@@ -1,7 +1,7 @@
 (* C16: identifiers are never handed out twice. A command only introduces identifiers above the counters; with monotone
    counters and "ids at most the counters" (wf) an identifier that disappeared can never reappear. *)
 From Coq Require Import ZArith List Bool Lia ZifyBool Sorting.Permutation.
-From OG Require Import C16.Model C16.Wf C16.Lists C16.Proofs C16.ProofsCmd C16.ProofsSg C16.ProofsRun.
+From OG Require Import C16.Model C16.Wf C16.Lists C16.Proofs C16.ProofsCmd C16.ProofsSg C16.ProofsNew C16.ProofsInv C16.ProofsRun.
 Import ListNotations.
 Open Scope Z_scope.
 
@@ -117,10 +117,10 @@ Proof.
   destruct (get_pol c db rp) as [p|] eqn:Eg; [|apply ids_step_refl].
   destruct (existsb _ (rp_sgs p)); [apply ids_step_refl|].
   destruct (rp_msts p) as [|m0 mr]; [apply ids_step_refl|].
-  destruct (ensure_ig c p t eng) as [ig isnew] eqn:Eig. cbn [fst ok].
+  destruct (ensure_ig c p t (new_sg_end true p t eng) eng) as [ig isnew] eqn:Eig. cbn [fst ok].
   pose proof (nonneg_get _ H) as NN.
   destruct (get_pol_spec _ _ _ _ Eg) as (Hfind & Hp & Edb & _). unfold find_pol in Hfind.
-  destruct (ensure_ig_spec _ _ _ _ _ _ Eig) as (_ & _ & Inew); [lia|].
+  destruct (ensure_ig_spec _ _ _ _ _ _ _ Eig) as (_ & _ & Inew); [lia|].
   set (n := Z.to_nat (ptnum c)).
   intros k id Hin. unfold upd_pol in Hin.
   destruct k; cbn [ids issued] in *; unfold sg_ids, sh_ids, ig_ids, ix_ids, mst_ids, node_ids in *;
@@ -169,7 +169,7 @@ Proof.
     eapply ids_step_snoc; reflexivity.
   - unfold mark_db. destruct (find_db c db) as [y|]; [|apply ids_step_refl]. destruct (db_mark y); [apply ids_step_refl|]. cbn [fst ok].
     eapply ids_step_trans_db; [apply ids_step_refl|]. intros k. destruct k; reflexivity.
-  - unfold drop_db. cbn [fst ok]. eapply ids_step_filter; reflexivity.
+  - unfold drop_db. destruct (find_db c db); [|apply ids_step_refl]. cbn [fst ok]. eapply ids_step_filter; reflexivity.
   - (* create_rp *) unfold create_rp.
     destruct (get_db c db); [|apply ids_step_refl]. destruct (rp =? 0); [apply ids_step_refl|].
     destruct (negb (spec_valid _ _)); [apply ids_step_refl|].
@@ -224,6 +224,27 @@ Proof.
     cbn [fst ok]. apply ids_step_pols; [|reflexivity]. unfold restore_state. cbn [pols set_pols]. apply Forall2_map_r.
     intros p k. destruct k; cbn [pol_ids]; unfold sh_ids_of, ix_ids_of; cbn [rp_sgs rp_igs rp_msts pol_set_sgs pol_set_igs];
       rewrite ?map_map, ?flat_map_concat_map, ?map_map; cbn [sg_id ig_id restore_sg restore_ig sg_shards ig_indexes]; apply subl_refl.
+  - (* create_mst_bad *) unfold create_mst_bad. destruct (get_pol c db rp) as [p|] eqn:Eg; [|apply ids_step_refl].
+    destruct (get_pol_spec _ _ _ _ Eg) as (Hf & _ & Edb & _). rewrite <- Edb in Hf.
+    assert (A : forall v, ids_step c (fst (if schemafirst c then err c else (add_mst c p m v, false)))).
+    { intros v. destruct (schemafirst c); [apply ids_step_refl | apply ids_step_add_mst; exact Hf]. }
+    destruct (assoc m (rp_vers p)); [destruct (find_mst p m z) as [y|]; [destruct (ms_mark y)|]|]; try apply A. apply ids_step_refl.
+  - (* rename_rp *) unfold rename_rp. destruct (get_db c db) as [y|]; [|apply ids_step_refl].
+    destruct (get_pol c db rp) as [p|]; [|apply ids_step_refl].
+    match goal with |- context [if ?t then err c else _] => destruct t end; [apply ids_step_refl|].
+    destruct (negb (spec_valid _ _)); [apply ids_step_refl|].
+    destruct (rekey c); cbn [fst ok]; [destruct (mkdef || _) | destruct mkdef];
+      try (eapply ids_step_trans_db; [|intros; apply ids_set_default]);
+      apply ids_step_upd_pol; intros q; apply pol_ids_sub_meta; try reflexivity; apply subl_refl.
+  - (* cancel_delete_sg *) unfold cancel_delete_sg. destruct (get_pol c db rp) as [p|]; [|apply ids_step_refl].
+    destruct (find _ (rp_sgs p)) as [g|]; [|apply ids_step_refl]. destruct (negb (sg_del g)); [apply ids_step_refl|].
+    destruct (_ && _); [apply ids_step_refl|]. cbn [fst ok].
+    apply ids_step_upd_pol. intros q k. destruct k; cbn [pol_ids]; unfold sh_ids_of, ix_ids_of; cbn [rp_sgs rp_igs rp_msts pol_set_sgs];
+      try apply subl_refl.
+    + rewrite updf_map_same; [apply subl_refl | reflexivity].
+    + rewrite updf_flat_map_same; [apply subl_refl | reflexivity].
+  - (* remove_node *) unfold remove_node. cbn [fst ok]. apply ids_step_incl. intros k id0 Hin. destruct k; cbn [ids] in *; try exact Hin.
+    unfold node_ids in *. cbn [nodes set_nodes] in Hin. eapply subl_In; [apply subl_map, subl_filter | exact Hin].
 Qed.
 
 (* ---- runs ---- *)
@@ -235,7 +256,8 @@ Proof.
   - (* a negative PtNumPerNode never raises the partition count; the other counters do not depend on it *)
     destruct x; cbn [apply];
       unfold create_db, mark_db, drop_db, create_rp, update_rp, mark_rp, drop_rp, set_default_rp, create_mst, mark_mst, drop_mst,
-        create_sg, delete_sg, prune_sg, delete_ig, prune_ig, create_node, create_ptview, update_pt, ok, err, add_mst, set_default, upd_pol, upd_db, restore_state;
+        create_sg, delete_sg, prune_sg, delete_ig, prune_ig, create_node, create_ptview, update_pt, create_mst_bad, rename_rp,
+        cancel_delete_sg, remove_node, ok, err, add_mst, set_default, upd_pol, upd_db, restore_state;
       repeat match goal with
              | |- context [match ?e with _ => _ end] => destruct e eqn:?; cbn [fst snd]
              | |- context [if ?e then _ else _] => destruct e eqn:?; cbn [fst snd]
@@ -254,27 +276,27 @@ Proof.
 Qed.
 
 (* an identifier at most the issued mark that is absent now stays absent for ever *)
-Lemma gone_stays_gone : forall xs c k id, wf c -> env_run c xs -> id <= issued k c -> ~ In id (ids k c) ->
+Lemma gone_stays_gone : forall xs c k id, good c -> env_run c xs -> id <= issued k c -> ~ In id (ids k c) ->
   ~ In id (ids k (run true true c xs)).
 Proof.
-  induction xs; intros c k id H E Hle Hnot; cbn [run]; [exact Hnot|]. destruct E as [E1 E2].
-  apply IHxs; [apply wf_step; assumption | exact E2 | |].
+  induction xs; intros c k id G E Hle Hnot; cbn [run]; [exact Hnot|]. destruct E as [E1 E2]. pose proof (proj1 G) as H.
+  apply IHxs; [apply good_step; assumption | exact E2 | |].
   - eapply Z.le_trans; [exact Hle | apply issued_mono; exact H].
   - intro Hin. destruct (step_ids c a H k id Hin) as [Hold|Hnew]; [contradiction | lia].
 Qed.
 
-Theorem ids_never_reused : forall xs ys c k id, wf c -> env_run c (xs ++ ys) ->
+Theorem ids_never_reused : forall xs ys c k id, good c -> env_run c (xs ++ ys) ->
   In id (ids k c) -> ~ In id (ids k (run true true c xs)) -> ~ In id (ids k (run true true c (xs ++ ys))).
 Proof.
-  intros xs ys c k id H E Hin Hgone.
+  intros xs ys c k id G E Hin Hgone. pose proof (proj1 G) as H.
   assert (Esplit : env_run c xs /\ env_run (run true true c xs) ys).
   { clear - E. revert c E. induction xs; intros c E; cbn in *; [tauto|]. destruct E as [E1 E2]. destruct (IHxs _ E2). tauto. }
   destruct Esplit as [Ex Ey].
   assert (R : run true true c (xs ++ ys) = run true true (run true true c xs) ys).
   { clear. revert c. induction xs; intros c; cbn; [reflexivity | apply IHxs]. }
-  rewrite R. apply gone_stays_gone; [apply wf_run; assumption | exact Ey | | exact Hgone].
+  rewrite R. apply gone_stays_gone; [apply good_run; assumption | exact Ey | | exact Hgone].
   (* id <= issued at the start <= issued after xs *)
   eapply Z.le_trans; [apply ids_le_issued; eassumption|].
-  clear - H Ex. revert c H Ex. induction xs; intros c H Ex; cbn [run]; [lia|]. destruct Ex as [E1 E2].
-  eapply Z.le_trans; [apply issued_mono; exact H | apply IHxs; [apply wf_step; assumption | exact E2]].
+  clear - G Ex. revert c G Ex. induction xs; intros c G Ex; cbn [run]; [lia|]. destruct Ex as [E1 E2].
+  eapply Z.le_trans; [apply issued_mono; exact (proj1 G) | apply IHxs; [apply good_step; assumption | exact E2]].
 Qed.
